@@ -6,7 +6,7 @@ import z3
 from z3 import IntVal, BoolVal, Length, If, And, Or, Not, Implies, is_true, simplify, IntSort
 
 from . import ops
-from .sorts import Tok, pystr, zmin, zmax, NONE_CAT
+from .sorts import Tok, Str, pystr, zmin, zmax, NONE_CAT
 from .values import (Val, VI, VB, VS, VNone, VTok, VOpt, VTuple, VSeq, VList, VE, lift, strz, Unsupported, fresh,
                      elem_val)
 
@@ -124,6 +124,10 @@ class SpecEval:
             return ctx.st.env[n.id]
         if n.id in ctx.st.ghost and isinstance(ctx.st.ghost[n.id], Val):
             return ctx.st.ghost[n.id]
+        if n.id == '_items' and ctx.st.ghost.get('_items') is not None:
+            return ctx.st.ghost['_items']
+        if n.id == '_out' and ctx.st.ghost.get('$out') is not None:
+            return ctx.st.ghost['$out']
         if n.id == 'True':
             return VB(True)
         if n.id == 'False':
@@ -154,6 +158,13 @@ class SpecEval:
                 return VOpt(Tok.cat(v.z) == NONE_CAT, VI(Tok.cat(v.z)))
         if v.ty == 'opt':
             return self.attr(v.a['some'], a, ctx)
+        if v.ty == 'none':      # total: an unspecified value of the attribute's type
+            if a == 'text':
+                return VS(fresh('undef', Str))
+            if a in ('position', 'pos', 'cat'):
+                return VI(fresh('undef', IntSort()))
+            if a == 'category':
+                return VNone
         if v.ty == 'const' and isinstance(v.a['py'], dict) and '__enumcls__' in v.a['py']:
             return VI(v.a['py']['members'][a])
         if v.ty == 'slice':
